@@ -351,11 +351,17 @@ def __e_dyad_form(a, b, backend):
     if backend.is_integer(a):
         if backend.is_float(b) or is_empty(b) or ('.' in b and str_is_float(b)):
             return KLONG_UNDEFINED
-        return int(b)
+        try:
+            return int(b)
+        except ValueError:
+            return KLONG_UNDEFINED
     if backend.is_float(a):
         if is_empty(b):
             return KLONG_UNDEFINED
-        return float(b)
+        try:
+            return float(b)
+        except ValueError:
+            return KLONG_UNDEFINED
     if isinstance(a,KGChar):
         b = str(b)
         if len(b) != 1:
